@@ -1603,11 +1603,10 @@ class Parameter(_ParameterBase):
                 # per_instance=False Parameter is the class)
                 if ref is not None:
                     obj.param._update_ref(name, ref, is_async)
-                elif (name in obj._param__private.refs and not syncing
-                      and not obj.param._TRIGGER):
+                elif name in obj._param__private.refs and not syncing:
                     # a plain value ends the link for good, including the
-                    # watchers kept on its sources (param.trigger re-assigns
-                    # the current value: not an override)
+                    # watchers kept on its sources (param.trigger marks the
+                    # names it re-assigns as syncing: not an override)
                     obj.param._update_ref(name, None)
 
             if is_async or val is Undefined:
@@ -2895,8 +2894,17 @@ class Parameters:
         self_._events  = []
         self_._state_watchers = []
         self_._TRIGGER = True
+        # the current values are re-assigned to be announced: for a linked
+        # parameter that is not an override of its reference
+        linked = ()
+        if self_.self is not None:
+            linked = [n for n in params if n in self_.self._param__private.refs]
         try:
-            self_.update(dict(params, **triggers))
+            if linked:
+                with _syncing(self_.self, linked):
+                    self_.update(dict(params, **triggers))
+            else:
+                self_.update(dict(params, **triggers))
         finally:
             # (also when a watcher raises)
             self_._TRIGGER = False
